@@ -14,7 +14,7 @@ func init() {
 		Explanation: "Reclamation structure of UDP associations on all paths (types and members found by shape, not by name): (TEARDOWN) in the association goroutine, after the reply loop returns, removal is reported exactly once, the entry is deleted and the socket returned by the " +
 			"deletion is closed; the reply loop is left only through the timeout classification of a read error; (SOLEDELETER) entries are removed from the table only by the deletion helper, which only association goroutines call, " +
 			"and inserted only by Add's helper — otherwise the conditional close in the goroutine can miss its socket; (ARM) every write through an association extends the read deadline before the datagram is sent, on all paths " +
-			"(a write that skips it can leave the association without any deadline, so it is never reclaimed); (MONOTONE) a deadline derived from now+timeout is installed only on the After(current deadline) edge and recorded, the only other " +
+			"(a write that skips it can leave the association without any deadline, so it is never reclaimed), and on the write path the one-shot fast-close latch is consumed before the deadline is extended, never after; (MONOTONE) a deadline derived from now+timeout is installed only on the After(current deadline) edge and recorded, the only other " +
 			"deadline write is the immediate fast-close inside the sync.Once reached from the read side; (SHUTDOWN) the datagram loop defers the table's Close before its first read and Close visits every entry under the write lock; " +
 			"(DNS) the DNS timeout constant is 17 s and DNS is decided from port 53 of the address being written.",
 		NotDecided: "every 'at least / within bounded time' clause (timing); kernel behaviour of deadlines.",
